@@ -1486,6 +1486,100 @@ class FactoryChildren:
         return {'note': 'children replays are not generated', 'parent_value': repr(model_scalar(m, p.run.v))}, None
 
 
+class FactoryChildrenMulti(FactoryChildren):
+    """factory(name, <domain>, children=[([v1, v2], child)]): ONE declaration with several parent values.  The child
+    must be attached under EVERY declared parent value, each attached child is its own object (a deep copy: neither
+    the caller's child nor the copy attached under another value) and reports exactly its own matching parent value
+    (SearchSpace.add writes `_matching_parent_values` into the object it is given: sharing one object between two
+    subspaces makes the last write visible through both)."""
+
+    def __init__(self, kind, vtag, bound=None):
+        FactoryChildren.__init__(self, kind, vtag)
+        self.sfx = '.multi.%s.%s' % (kind, vtag)
+        self.bound = bound
+
+    def bounded(self, k):
+        return FactoryChildrenMulti(self.kind, self.vtag, k + 1) if self.kind != 'INTEGER' else None
+
+    def entry(self, it):
+        run = it.run
+        run.it = it
+        run.name = run.fresh('name', Str)
+        run.assume(run.name != pm.str_lit(''))
+        run.v, run.v2 = fresh_value(run, self.vtag, 'pv1'), fresh_value(run, self.vtag, 'pv2')
+        kw = {}
+        if self.kind == 'INTEGER':
+            a, b = fresh_value(run, 'int', 'a'), fresh_value(run, 'int', 'b')
+            run.assume(a <= b)
+            kw['bounds'] = (a, b)
+            run.dom = _dom_from('INTEGER', a, b)
+        else:
+            kind = 'float' if self.kind == 'DISCRETE' else 'str'
+            xs = fresh_list(run, kind, 'xs', min_len=1, bound=self.bound)
+            if self.bound is None:
+                run.axiom(distinct_formula(xs))
+                if kind == 'float':
+                    i = z3.Int('i!cf')
+                    run.axiom(z3.ForAll([i], z3.Implies(z3.And(i >= 0, i < xs.n), xreal.is_fin(xs.arr[i]))))
+            else:
+                # model query: the same precondition, quantifier-free at the concrete length
+                for a_ in range(self.bound):
+                    if kind == 'float':
+                        run.assume(xreal.is_fin(xs.arr[a_]))
+                    for b_ in range(a_ + 1, self.bound):
+                        run.assume(z3.Not(elem_eq(xs.arr[a_], xs.arr[b_])))
+            kw['feasible_values'] = xs
+            run.dom = _dom_from(self.kind, fv=M.snapshot(xs))
+        child = call_factory(it, 'c', bounds=(0, 1))
+        run.child = child
+        kw['children'] = [([run.v, run.v2], child)]
+        return call_factory(it, run.name, **kw)
+
+    def distinct_values(self, run):
+        k1, k2 = internal_key(self.kind, run.v), internal_key(self.kind, run.v2)
+        if self.kind == 'INTEGER' and self.vtag == 'float':
+            return xreal.r(E.to_z3(run.v)) != xreal.r(E.to_z3(run.v2))
+        return k1 != k2
+
+    def post(self, p):
+        run = p.run
+        R, s = 'C16.factory.', self.sfx
+        mem = z3.And(member(run.dom, run.v), member(run.dom, run.v2))
+        lemmas = sorted_lemmas(run, R + 'children.lemma.sorted_is_permutation' + s)
+        if p.kind == 'raise':
+            # two declared values naming the same subspace would attach the child twice (duplicate name): also rejected
+            return lemmas + [(R + 'children.accepts_feasible_parent_value' + s, z3.Not(z3.And(mem, self.distinct_values(run))))]
+        obs = lemmas + [(R + 'children.rejects_infeasible_parent_value' + s, mem)]
+        r = p.value
+        ch = r.attrs.get('_children')
+        att = own = z3.BoolVal(False)
+        separate = False
+        if isinstance(ch, M.PyDict) and len(ch) == 2:
+            entries = []
+            for key, sub in ch.items():
+                cfgs = sub.attrs.get('_parameter_configs') if isinstance(sub, Obj) else None
+                if isinstance(cfgs, M.PyDict) and len(cfgs) == 1 and cfgs.items()[0][0] == 'c':
+                    entries.append((E.to_z3(key), cfgs.items()[0][1]))
+            if len(entries) == 2:
+                (k1, c1), (k2, c2) = entries
+                separate = c1 is not c2 and c1 is not run.child and c2 is not run.child
+                w1, w2 = internal_key(self.kind, run.v), internal_key(self.kind, run.v2)
+                if w1 is not None and k1.sort() == w1.sort():
+                    att = z3.Or(z3.And(k1 == w1, k2 == w2), z3.And(k1 == w2, k2 == w1))
+                    mp = [c.attrs.get('_matching_parent_values') for c in (c1, c2)]
+                    if all(isinstance(x, tuple) and len(x) == 1 and z3.is_expr(E.to_z3(x[0])) and E.to_z3(x[0]).sort() == k1.sort() for x in mp):
+                        own = z3.And(E.to_z3(mp[0][0]) == k1, E.to_z3(mp[1][0]) == k2)
+        obs.append((R + 'children.attached_under_value' + s, att))
+        obs.append((R + 'children.each_copy_reports_its_own_parent_value' + s, own))
+        obs.append((R + 'children.attached_children_are_separate_copies' + s, z3.BoolVal(bool(separate))))
+        return obs
+
+    def on_violation(self, name, p, m):
+        run = p.run
+        job = {'kind': 'children_multi', 'pc': dom_spec(m, run.dom), 'values': [enc(model_scalar(m, run.v)), enc(model_scalar(m, run.v2))]}
+        return run_replay(job)
+
+
 # =========================================================================================== D. SearchSpace.add
 class MapSnap:
     def __init__(self, sm):
@@ -2219,6 +2313,8 @@ def model_query(col, fname, obj, sfx, tier, known, timeout, scope=None):
     for k in ((1, 2, 3) if tier == 'quick' else (1, 2, 3, 4, 5)):
         sub = Collector(col.chk)
         b = obj.bounded(k)
+        if b is None:
+            return
         verify.verify_function((scope or Scoped)(sub, sfx or ''), fname, b.entry, b.post, known=known, on_violation=b.on_violation,
                                witness_terms=witness_terms, timeout_ms=timeout, deadline_s=60)
         have = {r[0] for r in col.records if r[3] == report.VIOLATED}
@@ -2256,6 +2352,8 @@ def families(tier):
                                                      FactoryMixed(0), FactoryMixed(1))]
     objs += [('ParameterConfig.factory', FactoryDefault(k, t)) for k in TYPES + ('CUSTOM',) for t in TAGS]
     objs += [('ParameterConfig.factory', FactoryChildren(k, t)) for k in TYPES for t in TAGS]
+    objs += [('ParameterConfig.factory', FactoryChildrenMulti(k, t)) for k, t in (('INTEGER', 'int'), ('INTEGER', 'float'), ('INTEGER', 'bool'), ('DISCRETE', 'float'),
+                                                                                 ('DISCRETE', 'int'), ('CATEGORICAL', 'str'), ('CATEGORICAL', 'bool'))]
     objs += [('SearchSpace.add', SpaceAdd(False)), ('SearchSpace.add', SpaceAdd(True))]
     num = ('bool', 'int', 'float')
     objs += [('SearchSpaceSelector.add_float_param', AddFloat(a, b, ix)) for a in num for b in num for ix in (False, True)]
